@@ -2700,6 +2700,7 @@ impl ReadTransaction {
                 PageHint::Clean,
                 fixed_key_size,
                 fixed_value_size,
+                self.tree.transaction_guard().clone(),
                 PageResolver::new(self.mem.clone()),
             )),
             InternalTableDefinition::Multimap { .. } => unreachable!(),
@@ -2759,6 +2760,7 @@ impl ReadTransaction {
                 PageHint::Clean,
                 fixed_key_size,
                 fixed_value_size,
+                self.tree.transaction_guard().clone(),
                 PageResolver::new(self.mem.clone()),
             )),
         }
